@@ -149,7 +149,17 @@ def run(chk):
         chk.count(1, (str(r["g"]), r["deg"], r["qed"], r["rotate"], str(r["tgt"]), str(r["has"]), str(r["raw"])), nontrivial=nontrivial)
     chk.sample({k: recs[0][k] for k in ("g", "deg", "qed", "rotate", "tgt", "has", "labels", "out", "outerr")})
     # binding demonstration rides along: corrupted copies must be rejected by the same runs
-    good = next(r for r in recs if r["haserr"] and r["rotate"] and len(r["tgt"]) > 0 and r["tgt"] != r["g"])
+    def _full(r):
+        return r["haserr"] and r["rotate"] and len(r["tgt"]) > 0 and r["tgt"] != r["g"]
+
+    tries = 0
+    while not any(_full(r) for r in recs):
+        # the seeded variants did not include one with error tensor + rotation + target grid: draw more
+        tries += 1
+        if tries > 40:
+            raise MachineryError("could not draw a record with error tensor, rotation and target grid")
+        recs += run_instance((make_instance(chk.rng), 6, chk.rng.randrange(2**32)))
+    good = next(r for r in recs if _full(r))
     c1 = copy.deepcopy(good)
     c1["out"][3][0] = [c1["out"][3][0][0] + c1["out"][3][0][1], c1["out"][3][0][1]]
     c2 = copy.deepcopy(good)
